@@ -38,7 +38,7 @@ QSEGS = [[0, 1, 2], [9], [10, 11], [0, 1, 2, 8, 9], [0, 1, 2, 4, 5, 6], [8, 9], 
 
 
 def plan(tier, seed):
-	tasks = []
+	tasks = [('t_files_child', dict(locale=loc)) for loc in ('default', 'ascii')]
 	for ti in range(len(ALPHABET)):
 		for half in range(2):
 			tasks.append(('t_exports', dict(ti=ti, half=half, tier=tier)))
@@ -186,6 +186,92 @@ def _only_cr_damage(text, res):
 	return strip(good.getvalue()) == strip(text)
 
 
+def t_files_child(locale):
+	from mc import child
+	env = {} if locale == 'default' else {'LC_ALL': 'C', 'LANG': 'C', 'PYTHONUTF8': '0', 'PYTHONCOERCECLOCALE': '0'}
+	return child.run('mc.props.c11', 't_files', dict(locale=locale), env=env)
+
+
+def t_files(locale):
+	"""Exports written to real FILES by path (the exporter opens them itself, with the interpreter's default text encoding) in a child interpreter
+	under the default locale and under an ASCII-only one (LC_ALL=C, UTF-8 mode off): JSON and archive must be readable back whatever the
+	names contain - incl. a label with a lone surrogate, as a file name that is not valid UTF-8 yields.  (CSV by path is judged under the
+	default locale only and without the surrogate label: its text is written as is.)  Also every timestamp shape for the archive."""
+	import datetime
+	import locale as _locale
+	from gambit.query import query, QueryParams, QueryInput
+	from gambit.results import CSVResultsExporter, JSONResultsExporter, ResultsArchiveWriter, ResultsArchiveReader
+	sh = Shard()
+	enc = _locale.getpreferredencoding(False)
+	with fixtures.workdir('c11f') as d:
+		db = build_db(os.path.join(d, 'db'), 'ünï-中', 'say "x", é', 0)
+		sigs = [clifix.lib_signature('P0', s) for s in QSEGS]
+		for lab in ('plain', 'ünï-中', 'sur\udcffrogate', 'a,b\n"q"'):
+			labels = [f'{lab}{i}' for i in range(len(QSEGS))]
+			res = query(db, sigs, QueryParams(report_closest=2), inputs=[QueryInput(l) for l in labels])
+			case = dict(taxon_string='ünï-中', genome_string='say "x", é', label_string=lab, strict=False, locale=locale, encoding=enc)
+			for kind, exp_cls in (('json', JSONResultsExporter), ('archive', ResultsArchiveWriter)):
+				path = os.path.join(d, f'out.{kind}')
+				sh.evals += 1
+				try:
+					exp_cls().export(path, res)
+					with open(path, 'rb') as f:
+						raw = f.read()
+					js = json.loads(raw.decode(enc if enc.lower().replace('-', '') != 'utf8' else 'utf-8', errors='surrogatepass'))
+				except Exception as e:
+					sh.violation('file-export-failed', dict(case, format=kind), 'a readable file', repr(e)[:300])
+					continue
+				names = [it['query']['name'] if kind == 'json' else it['input']['label'] for it in js['items']]
+				if names != labels:
+					sh.violation('file-export-labels-differ', dict(case, format=kind), labels, names)
+					continue
+				if kind == 'archive':
+					try:
+						back = ResultsArchiveReader(db.session).read(path)
+					except Exception as e:
+						sh.violation('archive-unreadable', dict(case, format=kind), 'reads back', repr(e)[:300])
+						continue
+					if not (back == res):
+						sh.violation('archive-roundtrip-not-equal', dict(case, format=kind))
+						continue
+				sh.nontrivial += 1
+				sh.count('file_exports')
+			if locale == 'default' and 'udcff' not in repr(lab):
+				path = os.path.join(d, 'out.csv')
+				sh.evals += 1
+				try:
+					CSVResultsExporter().export(path, res)
+					with open(path, newline='') as f:
+						rows = list(csv.reader(f))
+					if [r[0] for r in rows[1:]] != labels:
+						sh.violation('file-export-labels-differ', dict(case, format='csv'), labels, [r[0] for r in rows[1:]])
+				except Exception as e:
+					sh.violation('file-export-failed', dict(case, format='csv'), 'a readable file', repr(e)[:300])
+		# timestamps of every shape through the archive
+		res = query(db, sigs, QueryParams(), inputs=[QueryInput(f'q{i}') for i in range(len(QSEGS))])
+		stamps = [datetime.datetime(2024, 1, 2, 3, 4, 5), datetime.datetime(2024, 1, 2, 3, 4, 5, 1), datetime.datetime(2024, 12, 31, 23, 59, 59, 999999),
+		          datetime.datetime(2024, 1, 2), datetime.datetime(1, 1, 1), datetime.datetime(2024, 1, 2, 3, 4, 5, tzinfo=datetime.timezone.utc),
+		          datetime.datetime(2024, 1, 2, 3, 4, 5, 250000, tzinfo=datetime.timezone(datetime.timedelta(hours=-7, minutes=-30)))]
+		for ts in stamps:
+			res.timestamp = ts
+			sh.evals += 1
+			buf = io.StringIO()
+			ResultsArchiveWriter().export(buf, res)
+			try:
+				back = ResultsArchiveReader(db.session).read(io.StringIO(buf.getvalue()))
+			except Exception as e:
+				sh.violation('archive-unreadable', dict(taxon_string='-', genome_string='-', label_string='-', strict=False, timestamp=ts.isoformat()), 'reads back', repr(e)[:300])
+				continue
+			if back.timestamp != ts or not (back == res):
+				sh.violation('archive-params-or-meta-differ', dict(taxon_string='-', genome_string='-', label_string='-', strict=False, timestamp=ts.isoformat()), ts.isoformat(), repr(back.timestamp))
+			else:
+				sh.count('timestamp_shapes')
+		db.signatures.close()
+		db.session.close()
+	sh.sample(dict(family='files', locale=locale, preferred_encoding=enc))
+	return sh
+
+
 def t_exports(ti, half, tier):
 	_EXPORTERS.clear()
 	from gambit.db import ReferenceDatabase
@@ -264,9 +350,16 @@ def finalize(agg, tier):
 	for k in ('no_prediction', 'reportable_prediction', 'report_taxon_above_prediction', 'prediction_with_no_reportable_taxon', 'strict_failure_with_error',
 	          'with_warnings', 'input_without_file', 'no_next_taxon'):
 		agg.require('kind_' + k, 10)
+	agg.require('file_exports', 8)
+	agg.require('timestamp_shapes', 8)
 
 
 def replay(case, kind=None):
+	if 'locale' in case or 'timestamp' in case:
+		vs = []
+		for loc in (['default', 'ascii'] if 'timestamp' in case else [case['locale']]):
+			vs += t_files_child(loc).violations
+		return [v for v in vs if v['kind'] == kind][:1]
 	from gambit.query import query, QueryParams, QueryInput
 	from gambit.seq import SequenceFile
 	sh = Shard()
